@@ -633,6 +633,7 @@ static void list_mates(const std::string& sigspec)
     uint64_t idx = 0;
     bool done = spaces::enumerate_sig(sp, [&](const ref::Pos& p) {
         ++idx;
+        if ((idx & 0x3FF) == 0 && R.out_of_time()) return false;   // also while only scanning
         std::vector<ref::Mv> lm;
         ref::gen_legal(p, lm);
         if (lm.empty()) return true;
